@@ -173,9 +173,18 @@ class PureSnapshot:
         context (Dict[str, Any]): The context after the step.
         status (str): `"active"`, `"done"` or `"error"`.
         output (Any): Output when the machine completed.
+        history (Dict[str, List[str]]): Remembered configurations for
+            history pseudo-states, keyed by the parent state id.
     """
 
-    __slots__ = ("state_ids", "configuration", "context", "status", "output")
+    __slots__ = (
+        "state_ids",
+        "configuration",
+        "context",
+        "status",
+        "output",
+        "history",
+    )
 
     def __init__(
         self,
@@ -184,6 +193,7 @@ class PureSnapshot:
         context: Dict[str, Any],
         status: str = "active",
         output: Any = None,
+        history: Optional[Dict[str, List[str]]] = None,
     ) -> None:
         """Initializes the snapshot.
 
@@ -193,12 +203,17 @@ class PureSnapshot:
             context: The context after the step.
             status: Lifecycle status.
             output: Completion output, if any.
+            history: Remembered history configurations, by parent id.
         """
         self.state_ids = state_ids
         self.configuration = configuration
         self.context = context
         self.status = status
         self.output = output
+        # 🕰️ Without this a snapshot threaded through `transition()` forgot
+        #    every recorded history, so a later history target silently
+        #    resumed the parent's initial child instead of the last one.
+        self.history = history if history is not None else {}
 
     def matches(self, state_id: str) -> bool:
         """Reports whether a state is active in this snapshot.
@@ -296,6 +311,10 @@ def _capture(probe: Any) -> PureSnapshot:
         context=copy.deepcopy(probe.context),
         status=status,
         output=probe.output,
+        history={
+            parent_id: sorted(node.id for node in nodes)
+            for parent_id, nodes in probe._history.items()
+        },
     )
 
 
@@ -349,6 +368,13 @@ def transition(
         node = machine.get_state_by_id(state_id)
         if node is not None:
             probe._active_state_nodes.add(node)
+
+    # 🕰️ Restore remembered history so history targets keep working.
+    for parent_id, node_ids in (snapshot.history or {}).items():
+        nodes = [machine.get_state_by_id(node_id) for node_id in node_ids]
+        nodes = [node for node in nodes if node is not None]
+        if nodes:
+            probe._history[parent_id] = nodes
 
     # 📭 Only actions from THIS step should be reported.
     recorded.clear()
